@@ -14,7 +14,7 @@ pub fn prop() -> Prop {
         max_len: 900,
         quick: 120_000,
         thorough: 1_200_000,
-        rule: "choice sequence -> small start envelope (<=12 elements, route A or B) + history of 1-12 operations from {add, add-duplicate (also in obscured form), remove, remove-absent, replace, replace_subject, wrap, unwrap, elide set (3 actions, 2 modes), elide, compress, compress_subject, uncompress, uncompress_subject, encrypt_subject (2 keys), decrypt_subject (right/wrong key), encrypt, decrypt, add_salt, add_signature, add_recipient, add_type, add_attachment, add_assertion_salted, encode->decode}; invariant after EVERY step: emitted bytes pass the harness's strict dCBOR parser and envelope-grammar recogniser (node arity >= 2, slot validity, strictly ascending pairwise-distinct assertion digests, 32-byte digests, digests on encrypted/compressed), equal the harness encoding of the structure, digests recomputed from the parsed bytes equal the library's at every position, and the documented effect of the step holds. non-trivial: >=3 effective steps incl. one of {remove-last, add-duplicate, replace-subject-by-node, add-after-obscure}; distinct by FNV-64 of (start encoding, op names); plus operations that must be refused: add of a non-assertion, import (Envelope::try_from) of an EncryptedMessage / Compressed without a usable digest declaration, add-bulk-with-repeats, replace-by-equal, import-and-open of a compressed / encrypted element whose content is a node with repeated or out-of-order elements (must be refused), add-subject-as-assertion (accepted iff the subject is an assertion or obscured)",
+        rule: "choice sequence -> small start envelope (<=12 elements, route A or B) + history of 1-12 operations from {add, add-duplicate (also in obscured form), remove, remove-absent, replace, replace_subject, wrap, unwrap, elide set (3 actions, 2 modes), elide, compress, compress_subject, uncompress, uncompress_subject, encrypt_subject (2 keys), decrypt_subject (right/wrong key), encrypt, decrypt, add_salt, add_signature, add_recipient, add_type, add_attachment, add_assertion_salted, encode->decode}; invariant after EVERY step: emitted bytes pass the harness's strict dCBOR parser and envelope-grammar recogniser (node arity >= 2, slot validity, strictly ascending pairwise-distinct assertion digests, 32-byte digests, digests on encrypted/compressed), equal the harness encoding of the structure, digests recomputed from the parsed bytes equal the library's at every position, and the documented effect of the step holds. non-trivial: >=3 effective steps incl. one of {remove-last, add-duplicate, replace-subject-by-node, add-after-obscure}; distinct by FNV-64 of (start encoding, op names); plus operations that must be refused: add of a non-assertion, import (Envelope::try_from) of an EncryptedMessage / Compressed without a usable digest declaration, add-bulk-with-repeats, replace-by-equal, import-and-open of a compressed / encrypted element whose content is a node with repeated or out-of-order elements (must be refused), add-subject-as-assertion (accepted iff the subject is an assertion or obscured), replace_subject with a subject that carries one of the receiver's assertions (or the receiver itself)",
         assumptions: &["operations that legitimately return Err leave the state unchanged and are counted as refused"],
         extra: None,
     }
